@@ -65,6 +65,31 @@ def handpicked():
     return ts
 
 
+# ---------------------------------------------------------------- hand-written derived items
+# (harness/src/items.rs); appended AFTER the random types so that no earlier id shifts
+def derived_items():
+    u8, u16, u32, i8, i16 = P('u8'), P('u16'), P('u32'), P('i8'), P('i16')
+    string = ('text', 'string')
+    unitv = ('prod', ('variant', (), ()), ())
+    snamed = ('prod', ('struct', 'SNamed', ('a', 'b', 'c'), (False, True, False)), (u8, u32, string))
+    stuple = ('prod', ('struct', 'STuple', (), (False, True, False)), (u16, seq('vec', u8), P('bool')))
+    sunit = ('prod', ('struct', 'SUnit', (), ()), ())
+    eplain = ('sum', ('enum', 'EPlain', ('A', 'B', 'C'), (0, 1, 2)),
+              (unitv, ('prod', ('variant', (), (False, False)), (u8, string)),
+               ('prod', ('variant', ('x', 'y'), (False, True)), (i16, u8))))
+    edisc = ('sum', ('enum', 'EDisc', ('X', 'Y', 'Z', 'W'), (5, 6, 8, 9)), (unitv, unitv, unitv, unitv))
+    kstruct = ('prod', ('struct', 'KStruct', ('a', 'b'), (False, False)), (i8, string))
+    kenum = ('sum', ('enum', 'KEnum', ('P', 'Q', 'R'), (0, 1, 2)),
+             (unitv, ('prod', ('variant', (), (False,)), (u8,)), ('prod', ('variant', ('n',), (False,)), (i16,))))
+    snest = ('prod', ('struct', 'SNest', ('head', 'items', 'tag', 'pair'), (False, False, False, False)),
+             (eplain, seq('vec', snamed), opt(edisc), tup(stuple, sunit)))
+    ts = [snamed, stuple, sunit, eplain, edisc, kstruct, kenum, snest,
+          seq('vec', snamed), opt(eplain), arr(2, stuple), seq('deque', eplain), res(edisc, kstruct),
+          seq('btreeset', kstruct), mapk('hashmap', kstruct, snamed), seq('hashset', kenum), mapk('btreemap', kenum, seq('vec', edisc)),
+          seq('hashset', edisc), seq('vec', sunit), wrap('box', snest), tup(eplain, edisc, kenum)]
+    return ts
+
+
 def catalogue_types():
     rng = random.Random(CATALOGUE_SEED)
     out = []
@@ -85,6 +110,11 @@ def catalogue_types():
             continue
         if len(sexp(t)) > 400:
             continue
+        seen.add(t)
+        out.append(t)
+    for t in derived_items():
+        assert wf(t), t
+        assert t not in seen
         seen.add(t)
         out.append(t)
     return list(enumerate(out))
